@@ -24,6 +24,7 @@ type GenOpts struct {
 	PathConfigs bool // configs with `paths` ignore entries
 	Anomalies   bool // odd but legal disk shapes: empty files, an empty config, a directory without .git next to the repositories
 	Symlinks    bool // some workflow files are symbolic links to files outside their repository
+	GenIface    bool // a reusable workflow with a generated interface (types, required, defaults in every combination) and callers of it
 	Clone       bool // some worlds reuse one workflow text for several files (same code paths collide: shared tables, caches)
 }
 
@@ -225,6 +226,24 @@ func GenMulti(c *Chooser, o GenOpts) *MultiWorld {
 			}
 		}
 	}
+	if o.GenIface && c.Weighted("world.geniface", 1, 3) {
+		// a local reusable workflow whose interface is drawn per world, one or two callers of it in
+		// separate files, and (often) the callee itself among the arguments: the callers' diagnostics
+		// must not depend on whether the interface came from the in-memory AST or from the file
+		root := mw.Repos[0].Root
+		callee := root + "/.github/workflows/reuse-gen.yml"
+		disk.Put(callee, []byte(genIfaceWorkflow(c)))
+		ncallers := 1 + c.Int("world.ncallers", 2)
+		for i := 0; i < ncallers; i++ {
+			p := fmt.Sprintf("%s/.github/workflows/call-gen%d.yml", root, i)
+			disk.Put(p, []byte(genIfaceCaller(c, i)))
+			all = append(all, p)
+			mw.Groups[p] = []string{"generated-interface-caller"}
+		}
+		if c.Weighted("world.calleeisarg", 2, 3) {
+			all = append(all, callee)
+		}
+	}
 	if o.Anomalies && c.Weighted("world.anomaly", 1, 3) {
 		switch c.Int("world.anomalykind", 5) {
 		case 0: // an empty workflow file among the arguments
@@ -315,4 +334,102 @@ func spell(abs, cwd string, relative bool) string {
 		}
 	}
 	return abs
+}
+
+var ifaceNames = []string{"alpha", "Beta", "gamma_3", "delta-x"}
+
+// genIfaceWorkflow draws a reusable workflow interface.
+func genIfaceWorkflow(c *Chooser) string {
+	var b strings.Builder
+	b.WriteString("on:\n  workflow_call:\n")
+	if c.Weighted("world.hasinputs", 4, 5) {
+		b.WriteString("    inputs:\n")
+		for _, n := range ifaceNames {
+			if c.Weighted("world.skipinput", 1, 4) {
+				continue
+			}
+			fmt.Fprintf(&b, "      %s:\n", n)
+			empty := true
+			if t := []string{"", "string", "number", "boolean"}[c.Int("world.itype", 4)]; t != "" {
+				fmt.Fprintf(&b, "        type: %s\n", t)
+				empty = false
+			}
+			if r := []string{"", "true", "false"}[c.Int("world.irequired", 3)]; r != "" {
+				fmt.Fprintf(&b, "        required: %s\n", r)
+				empty = false
+			}
+			switch c.Int("world.idefault", 7) {
+			case 1:
+				b.WriteString("        default:\n")
+				empty = false
+			case 2:
+				b.WriteString("        default: ''\n")
+				empty = false
+			case 3:
+				b.WriteString("        default: x\n")
+				empty = false
+			case 4:
+				b.WriteString("        default: 3\n")
+				empty = false
+			case 5:
+				b.WriteString("        default: true\n")
+				empty = false
+			case 6:
+				b.WriteString("        default: null\n")
+				empty = false
+			}
+			if empty {
+				b.WriteString("        description: d\n")
+			}
+		}
+	}
+	if c.Weighted("world.hassecrets", 2, 3) {
+		b.WriteString("    secrets:\n")
+		for _, n := range []string{"TOKEN", "key"} {
+			fmt.Fprintf(&b, "      %s:\n", n)
+			switch c.Int("world.srequired", 3) {
+			case 0:
+				b.WriteString("        description: s\n")
+			case 1:
+				b.WriteString("        required: true\n")
+			case 2:
+				b.WriteString("        required: false\n")
+			}
+		}
+	}
+	if c.Bool("world.hasoutputs") {
+		b.WriteString("    outputs:\n      Result:\n        description: r\n        value: ${{ jobs.j.outputs.v }}\n")
+	}
+	b.WriteString("jobs:\n  j:\n    runs-on: ubuntu-latest\n    outputs:\n      v: ${{ steps.s.outputs.v }}\n    steps:\n      - id: s\n        run: echo \"v=1\" >> \"$GITHUB_OUTPUT\"\n")
+	return b.String()
+}
+
+// genIfaceCaller draws a workflow that calls the generated reusable workflow.
+func genIfaceCaller(c *Chooser, i int) string {
+	var b strings.Builder
+	fmt.Fprintf(&b, "on: push\njobs:\n  call%d:\n    uses: ./.github/workflows/reuse-gen.yml\n", i)
+	var with []string
+	for _, n := range append(append([]string{}, ifaceNames...), "unknown") {
+		if c.Weighted("world.passinput", 1, 2) {
+			v := []string{"text", "3", "true", "${{ 'x' }}", "${{ 42 }}", "${{ github.ref }}"}[c.Int("world.inputvalue", 6)]
+			name := n
+			if c.Weighted("world.inputcase", 1, 4) {
+				name = strings.ToUpper(n)
+			}
+			with = append(with, fmt.Sprintf("      %s: %s\n", name, v))
+		}
+	}
+	if len(with) > 0 {
+		b.WriteString("    with:\n" + strings.Join(with, ""))
+	}
+	switch c.Int("world.secretsmode", 4) {
+	case 1:
+		b.WriteString("    secrets: inherit\n")
+	case 2:
+		b.WriteString("    secrets:\n      token: ${{ secrets.T }}\n")
+	case 3:
+		b.WriteString("    secrets:\n      TOKEN: ${{ secrets.T }}\n      KEY: ${{ secrets.K }}\n      other: x\n")
+	}
+	fmt.Fprintf(&b, "  after%d:\n    needs: [call%d]\n    runs-on: ubuntu-latest\n    steps:\n      - run: echo ${{ needs.call%d.outputs.result }} ${{ needs.call%d.outputs.nope }}\n", i, i, i, i)
+	return b.String()
 }
